@@ -707,8 +707,9 @@ Proof.
       assert (C1 : ck_changed c r' = false) by (unfold ck_changed; rewrite T2, ck_eqb_refl; reflexivity).
       assert (C2 : deps_changed v r' df = false).
       { apply (deps_changed_same v). intros p Hp. rewrite T4 in Hp. inversion Hp; subst. apply same_set_refl. }
-      assert (C3 : Forall (fun f => file_verdict md5 c fs r' f = FSame) (file_dep df)).
-      { apply Forall_forall. intros f Hf. apply good_verdict. auto. }
+      assert (C3 : Forall (fun f => dep_verdict md5 v c fs r' f = FSame) (file_dep df)).
+      { apply (Forall_verdicts_inside md5 v c fs r' (file_dep df) (saved_deps_inside r' df T4)).
+        apply Forall_forall. intros f Hf. apply good_verdict. auto. }
       tauto.
     + exfalso. destruct T4 as [T4 T5]. rewrite forallb_forall in Eall. specialize (Eall f T4).
       unfold exists_ in Eall. rewrite T5 in Eall. discriminate.
